@@ -93,6 +93,16 @@ def P3(m, R):
                         env.setdefault('#first', k)
         return transfer
 
+    # the leading reset decided before the loop from the smallest key of the table (`first = min(table, default=None)`): the cases "no point", "first point at 0",
+    # "first point later" are then told apart by a value this path enumeration does not follow -- undecided, not a finding
+    pre_decided = [n for n in f.walk() if isinstance(n, ast.Assign) and isinstance(n.targets[0], ast.Name) and isinstance(n.value, ast.Call) and
+                   call_name(n.value) in ('min', 'next', 'sorted') and ro.TABLE in norm(n.value)]
+    if pre_decided and any(isinstance(n, ast.Assign) and is_name(n.targets[0], out) and _classify_append(F, n.value, obj, ro.TEXT, frozenset()) == 'CLEAR' for n in f.walk()):
+        for spec in (False, True):
+            for label in ('first point at index 0', 'first point after index 0'):
+                R.undecided(f, pre_decided[0], 'the leading reset is decided before the loop from %s: not followed' % short(pre_decided[0].value),
+                            construct='reset_start / %s / format_spec %s' % (label, 'given' if spec else 'empty'))
+        return
     scenarios = [
         ('first point at index 0', {'%s == 0' % idx: True, '%s > 0' % idx: False, '%s != 0' % idx: False, '0 == %s' % idx: True, 'not %s' % idx: True}, True),
         ('first point after index 0', {'%s == 0' % idx: False, '%s > 0' % idx: True, '%s != 0' % idx: True, '0 == %s' % idx: False, 'not %s' % idx: False}, False),
@@ -210,8 +220,8 @@ def P5(m, R):
     apps = [n for n in f.walk() if isinstance(n, ast.AugAssign) and is_name(n.target, out)]
     others = [n for n in f.walk() if isinstance(n, ast.Assign) and any(is_name(t, out) for t in n.targets)]
     for n in others:
-        ok = const_val(n.value, None) == ''
-        R.check(ok, f, n, 'output starts empty', 'output is (re)assigned %s' % short(n.value), construct='out init')
+        ok = const_val(n.value, None) == '' or _classify_append(F, n.value, obj, ro.TEXT, set()) == 'CLEAR'
+        R.check(ok, f, n, 'output starts empty (or with the clear sequence)', 'output is (re)assigned %s' % short(n.value), construct='out init')
     for a in apps:
         for p in flatten_add(a.value):
             k = _classify_append(F, p, obj, ro.TEXT, set())
